@@ -122,7 +122,8 @@ def call_event(api, envname, out, conn, arrive=0, n=0, wantdesc=0, match=True):
         res = "bytes"
     closed, sess = proj(conn)
     return {"ev": "CALL", "api": api, "env": envname, "arrive": arrive, "res": res, "n": n,
-            "closed": closed, "sess": sess, "desc": desc, "wantdesc": wantdesc, "match": bool(match), "buffered": False}
+            "closed": closed, "sess": sess, "desc": desc, "wantdesc": wantdesc, "match": bool(match), "buffered": False,
+            "refs": int(conn._refCount)}
 
 
 # ---------------------------------------------------------------- handshake faults
@@ -350,6 +351,197 @@ def data_history(job):
         return None, {"kind": "data", "job": [idx, ver, kex, role, list(opts), pre, term], "crash": traceback.format_exc()}
 
 
+# ---------------------------------------------------------------- makefile() / reference-counted close
+FILE_OPS = ("mkr", "mkw", "cclose", "fclose", "fio", "io")
+
+
+class _NoWait(object):
+    """guard for the blocking calls of a file history: a call that would wait for bytes that never come is a
+    harness error, not something to sit in"""
+    def __init__(self):
+        self.spins = 0
+
+    def on_recv(self, sock, n):
+        if not sock.rx.buf and not sock.rx.eof:
+            self.spins += 1
+            if self.spins > 200:
+                raise RuntimeError("verif: blocking call waits for bytes that never come")
+        return None
+
+    def on_send(self, sock, data):
+        return None
+
+
+def file_history(job):
+    """makefile() histories: file objects and the connection are closed in every order; the connection must stay fully
+    usable (in both directions, through the files and directly, nothing said to the peer) until the LAST holder
+    closes, and that close must end the TLS connection in order"""
+    from ..flavours import Scenario, flavour
+    from ..endpoints import _read_gen, Outcome
+    idx, ver, kex, role, opts, script = job
+    info = {"kind": "file", "job": [idx, ver, kex, role, list(opts), list(script)]}
+    import signal
+
+    def _late(signum, frame):
+        raise RuntimeError("verif: a call of the makefile history did not return within 30 s")
+    signal.signal(signal.SIGALRM, _late)
+    signal.alarm(30)
+    try:
+        sc = Scenario(flavour(ver, kex), "c17f-%d" % idx)
+        p = sc.pair
+        cgen, sgen = sc.gens()
+        st, co, so = p.run(cgen, sgen)
+        eut, peer = (p.c, p.s) if role == "c" else (p.s, p.c)
+        es = p.csock if role == "c" else p.ssock
+        pname = "s" if role == "c" else "c"
+        eut.closeSocket, eut.ignoreAbruptClose = opts
+        ev = [{"ev": "CFG", "closeSocket": bool(opts[0]), "ignoreAbrupt": bool(opts[1])}]
+        ev.append(call_event("handshake", "ok", co if role == "c" else so, eut))
+        if not (co.ok and so.ok):
+            info["problem"] = "handshake failed"
+            return ev, info
+        files = []          # [kind, fileobj]  open file objects, oldest first
+        counter = [0]
+        peer_saw_end = [False]
+
+        def blocking(fn):
+            o = Outcome()
+            guard = _NoWait()
+            es.schedule = guard
+            try:
+                o.value = fn()
+                o.done = True
+            except BaseException as e:
+                if isinstance(e, (KeyboardInterrupt, SystemExit, MemoryError)):
+                    raise
+                if isinstance(e, RuntimeError) and "verif:" in str(e):
+                    info["problem"] = str(e)
+                o.done = True
+                o.exc = e
+            finally:
+                es.schedule = None
+            for q in p.pipes:
+                q.transfer()
+            return o
+
+        def peer_drain():
+            """what the peer can read now: (bytes, ended)"""
+            got = b""
+            for _ in range(4):
+                o = p.op(pname, _read_gen(peer, None, 1), max_steps=3000)
+                if o.exc is not None:
+                    return got, "exc:" + type(o.exc).__name__
+                if o.value is None or not o.done:
+                    return got, False          # would wait: nothing (more) there
+                if o.value == b"":
+                    return got, True
+                got += bytes(o.value)
+            return got, False
+
+        def io_round(reader, writer):
+            """3 bytes in each direction; reader/writer = file objects or None for the direct API"""
+            counter[0] += 1
+            tag = bytes([65 + counter[0]]) * 3
+            was_open = not eut.closed
+            if not peer.closed:
+                p.write(pname, tag)
+            if reader is not None:
+                def rd():
+                    # a raw file object returns what one record holds (TLS 1.0 splits 1/n-1)
+                    acc = b""
+                    while len(acc) < 3:
+                        d = reader.read(3 - len(acc))
+                        if not d:
+                            break
+                        acc += d
+                    return acc
+                o = blocking(rd)
+            else:
+                o = blocking(lambda: eut.read(3, 3) if was_open else eut.read(3))
+            got = bytes(o.value or b"") if o.exc is None else b""
+            ok = (got == tag) if (was_open and not peer.closed) else True
+            if was_open and o.exc is None and not peer.closed and got != tag:
+                ok = False
+            ev.append(call_event("read", "data" if (was_open and not peer.closed) else "ok", o, eut,
+                                 arrive=3 if (was_open and not peer.closed) else 0, n=len(got), match=ok))
+            if ev[-1]["res"] == "ok":
+                ev[-1]["res"] = "bytes"
+            was_open = not eut.closed
+            if writer is not None and was_open:
+                def w():
+                    writer.write(tag)
+                    writer.flush()
+                o = blocking(w)
+            else:
+                o = blocking(lambda: eut.write(tag))
+            ok = True
+            if was_open and o.exc is None:
+                got, ended = peer_drain()
+                ok = (got == tag and ended is False)      # the bytes arrive and the peer has been told nothing else
+            ev.append(call_event("write", "ok", o, eut, match=ok))
+
+        def check_peer_after_close(was_open, closes):
+            """after a close() call: has the peer been told, and only when the last holder closed"""
+            got, ended = peer_drain()
+            if closes:
+                peer_saw_end[0] = True
+                return got == b"" and ended is True           # orderly end of data, nothing else
+            return got == b"" and ended is False              # nothing at all has been said
+
+        for op in script:
+            if "problem" in info:
+                break
+            if op in ("mkr", "mkw"):
+                o = blocking(lambda: eut.makefile("rb" if op == "mkr" else "wb"))
+                if o.exc is None:
+                    files.append([op, o.value])
+                ev.append(call_event("makefile", "ok", o, eut))
+            elif op in ("cclose", "fclose"):
+                if op == "fclose" and not files:
+                    continue
+                was_open = not eut.closed
+                before = eut._refCount
+                if not opts[0] and was_open and before <= 1 and not peer_saw_end[0]:
+                    # closeSocket=False: the closing side waits for the peer's close_notify - have it on the wire
+                    from tlslite.messages import Alert
+                    from tlslite.constants import AlertDescription, AlertLevel
+                    p.op(pname, peer._sendMsg(Alert().create(AlertDescription.close_notify, AlertLevel.warning)))
+                    envn = "close_notify"
+                    peer_saw_end[0] = True
+                else:
+                    envn = "ok"
+                if op == "cclose":
+                    o = blocking(eut.close)
+                else:
+                    o = blocking(files.pop(0)[1].close)
+                closes = was_open and before <= 1
+                ok = True
+                if was_open and o.exc is None and not peer_saw_end[0] and envn == "ok":
+                    ok = check_peer_after_close(was_open, closes)
+                ev.append(call_event("close", envn, o, eut, match=ok))
+            elif op == "fio":
+                r = next((f for k, f in files if k == "mkr"), None)
+                w = next((f for k, f in files if k == "mkw"), None)
+                if r is None and w is None:
+                    continue
+                io_round(r, w)
+            elif op == "io":
+                io_round(None, None)
+        # file objects still open close themselves when collected: never let that wait for a peer that is gone
+        eut.closeSocket = True
+        for _k, f_ in files:
+            blocking(f_.close)
+        del files[:]
+        return ev, info
+    except BaseException:
+        import traceback
+        info["crash"] = traceback.format_exc()
+        return None, info
+    finally:
+        signal.alarm(0)
+
+
+
 def sibling_history(job):
     """connection A (full handshake) stays open while connection B resumes A's session and then dies; A is closed in
     order afterwards: the shared session stays dead.  Events are those of connection A's endpoint `role`."""
@@ -495,8 +687,26 @@ def run(tier):
         (v_, r_, h_) for v_ in (1, 3) for r_ in ("c", "s") for h_ in ("eof", "fatal"))]
     with Pool(8) as pool:
         res3 = pool.map(sibling_history, sjobs)
+    # makefile(): every script over (make a reader, make a writer, close the connection, close the oldest file, one
+    # round of I/O through the files, one round of direct I/O) up to the tier's length
+    import itertools
+    fjobs = []
+    flen = 3 if tier == "quick" else 4
+    combos = [(3, "ecdhe_rsa", "c"), (4, "tls13", "s"), (4, "tls13", "c"), (1, "rsa", "s")]
+    k = 0
+    for n_ in range(1, flen + 1):
+        for script in itertools.product(FILE_OPS, repeat=n_):
+            if not any(o_ in ("mkr", "mkw") for o_ in script):
+                continue
+            for ci in (range(len(combos)) if tier != "quick" else [k % len(combos)]):
+                ver, kex, role = combos[ci]
+                opts = [(True, False), (False, False)][(k // 2) % 2] if n_ > 1 else (True, False)
+                fjobs.append((len(fjobs), ver, kex, role, opts, script + ("io", "cclose", "fclose", "fclose", "io")))
+            k += 1
+    with Pool(16) as pool:
+        res4 = pool.map(file_history, fjobs, chunksize=8)
     traces, infos = [], []
-    for ev, info in res1 + res2 + res3:
+    for ev, info in res1 + res2 + res3 + res4:
         if ev is None:
             rep.machinery_errors.append("case crashed: %s" % info.get("crash", "")[-600:])
             continue
@@ -513,6 +723,10 @@ def run(tier):
             if info["kind"] == "sibling":
                 j = info["job"]
                 key = {"scenario": "sibling", "ver": FL.VNAME[j[1]], "role": j[2], "how": j[3]}
+            elif info["kind"] == "file":
+                j = info["job"]
+                key = {"scenario": "makefile-history", "ver": FL.VNAME[j[1]], "role": j[3],
+                       "opts": "cs=%s,ia=%s" % tuple(j[4]), "script": "-".join(j[5])}
             elif info["kind"] == "hsfault":
                 j = info["job"]
                 key = {"scenario": "handshake-fault", "flavour": FL.fname(flavs[j[0]]), "role": j[1],
@@ -534,6 +748,7 @@ def run(tier):
         rep.sample({"job": info["job"], "events": ev})
     rep.notes["handshake_fault_cases"] = len(jobs)
     rep.notes["data_histories"] = len(djobs)
+    rep.notes["makefile_histories"] = len(fjobs)
     rep.exhaustive = True
     rep.notes["exhaustive_space"] = "every recv/send call index of the victim in each listed flavour x role; the listed data-history product"
     return rep.finish()
